@@ -27,7 +27,20 @@ CONCS = {
     "tuple": lambda i: (i, "t"),
     # hashable values that are themselves collections (a mapping's value must be taken as ONE value)
     "frozenset": lambda i: frozenset({i, 200 + i}),
+    # falsy keys and values (a test by truth value instead of presence would mistake them for "nothing there")
+    "falsy": lambda i: (0, "", (), frozenset(), b"")[i - 1] if 1 <= i <= 5 else ("f", i),
+    # the same atoms as "str", on instances of a subclass
+    "str/subclass": lambda i: "a%d" % i,
 }
+
+
+def subclass_of(base, name):
+    """a subclass of a library class, registered in this module so that its instances pickle by reference"""
+    cls = globals().get(name)
+    if cls is None or cls.__bases__ != (base,):
+        cls = type(name, (base,), {"__module__": __name__})
+        globals()[name] = cls
+    return cls
 
 
 class Base(GenericAdapter):
@@ -37,7 +50,8 @@ class Base(GenericAdapter):
         self.A = lambda i: None if i == 0 else ([1] if i == 99 else f(i))
         self._tab = [(f(i), i) for i in range(1, 30)]
         self.U = U
-        self.strkeys = conc == "str"
+        self.strkeys = conc.startswith("str")
+        self.subclass = conc.endswith("/subclass")
 
     def dec(self, x):
         if x is None:
@@ -58,8 +72,24 @@ class OtoDriver(Base):
 
     def fresh(self, state):
         from boltons.dictutils import OneToOne
-        self.cls = OneToOne
-        return OneToOne()
+        self.cls = subclass_of(OneToOne, "OneToOneSub") if self.subclass else OneToOne
+        return self.hold(self.cls())
+
+    def hold(self, o):
+        """keep the handle of the inverse view obtained now: it must stay THE inverse whatever is done later (kept beside
+        the object, not on it: attributes would travel with copies and pickles)"""
+        reg = self.__dict__.setdefault("_inv0", {})
+        if len(reg) > 2000:
+            reg.clear()
+        try:
+            reg[id(o)] = (o, o.inv)
+        except Exception:
+            pass
+        return o
+
+    def inv0(self, o):
+        ent = self.__dict__.get("_inv0", {}).get(id(o))
+        return ent[1] if ent and ent[0] is o else o.inv
 
     def variants(self, op):
         n = op["op"]
@@ -99,7 +129,7 @@ class OtoDriver(Base):
     def step(self, o, op, variant):
         A, dec = self.A, self.dec
         n, k = op["op"], op["k"]
-        tgt = o if op["side"] == "fwd" else o.inv
+        tgt = o if op["side"] == "fwd" else self.inv0(o)
         got = {}
         try:
             v = []
@@ -109,6 +139,14 @@ class OtoDriver(Base):
                 del tgt[A(k)]
             elif n == "getitem":
                 v = [dec(tgt[A(k)])]
+            elif n == "update_failing":
+                ps_ = self.pairs(op["arg"])
+
+                def failing():
+                    for p_ in ps_:
+                        yield p_
+                    raise RuntimeError("the source of the pairs broke off")
+                tgt.update(failing())
             elif n == "update":
                 if variant == "kw":
                     tgt.update((), **dict(self.pairs(op["arg"])))
@@ -124,7 +162,7 @@ class OtoDriver(Base):
                     v = [-5]
             elif n in ("ctor", "unique"):
                 mk = self.cls if n == "ctor" else self.cls.unique
-                o = mk(**dict(self.pairs(op["arg"]))) if variant == "kw" else mk(self.form(op["arg"], variant))
+                o = self.hold(mk(**dict(self.pairs(op["arg"]))) if variant == "kw" else mk(self.form(op["arg"], variant)))
             elif n == "setdefault":
                 v = [dec(tgt.setdefault(A(k)) if op["d"] == -1 else tgt.setdefault(A(k), A(op["d"])))]
             elif n == "pop":
@@ -168,7 +206,7 @@ class OtoDriver(Base):
             res["inv"] = sorted([dec(a), dec(b)] for a, b in dict.items(o.inv))
             res["len"] = len(o)
             res["len_inv"] = len(o.inv)
-            res["inv_inv_is_self"] = o.inv.inv is o
+            res["inv_inv_is_self"] = o.inv.inv is o and (self.inv0(o) is o.inv)
             ok = True
             for a, b in list(dict.items(o)):
                 ok = ok and o[a] == b and o.get(a) == b and a in o and b in o.inv and o.inv[b] == a
@@ -189,8 +227,8 @@ class M2MDriver(Base):
 
     def fresh(self, state):
         from boltons.dictutils import ManyToMany
-        self.cls = ManyToMany
-        return ManyToMany()
+        self.cls = subclass_of(ManyToMany, "ManyToManySub") if self.subclass else ManyToMany
+        return self.cls()
 
     def variants(self, op):
         n = op["op"]
@@ -248,7 +286,7 @@ class M2MDriver(Base):
                     # independence of the instance it was built / updated from, both directions
                     snap = sorted((dec(a), dec(b)) for a, b in other.iteritems())
                     snap_i = sorted((dec(a), dec(b)) for a, b in other.inv.iteritems())
-                    for a, b in ps[:1]:
+                    for a, b in list(dict.fromkeys(ps)):
                         tgt.add(a, A(7))
                         tgt.remove(a, A(7))
                         tgt.inv.add(b, A(8))
@@ -257,7 +295,7 @@ class M2MDriver(Base):
                     now_i = sorted((dec(a), dec(b)) for a, b in other.inv.iteritems())
                     if now != snap or now_i != snap_i or [(b, a) for a, b in snap] != sorted((b, a) for a, b in snap) and False:
                         v = [-6]
-                    for a, b in ps[:1]:
+                    for a, b in list(dict.fromkeys(ps)):
                         other.add(a, A(9))
                         other.inv.add(b, A(10))
                         other.remove(a, b)
@@ -305,8 +343,8 @@ class FrozenDriver(Base):
 
     def fresh(self, state):
         from boltons.dictutils import FrozenDict
-        self.cls = FrozenDict
-        return FrozenDict(self.pairs(state))
+        self.cls = subclass_of(FrozenDict, "FrozenDictSub") if self.subclass else FrozenDict
+        return self.cls(self.pairs(state))
 
     def variants(self, op):
         n = op["op"]
@@ -516,7 +554,7 @@ def main(tier, seed):
     t0 = time.time()
     stats, verdict = Stats(), Verdict(PROP, tier, seed)
     thorough = tier == "thorough"
-    concs = list(CONCS) if thorough else ["str", "tuple"]
+    concs = list(CONCS) if thorough else ["str", "falsy", "str/subclass"]
     for mod, mc, gen, drv_cls, U in (("BidictMC.tla", "BidictMC.cfg", "BidictGen.cfg", OtoDriver, 3),
                                      ("M2MMC.tla", "M2MMC.cfg", "M2MGen_thorough.cfg" if thorough else "M2MGen.cfg", M2MDriver, 3),
                                      ("FrozenMC.tla", "FrozenMC.cfg", "FrozenGen.cfg", FrozenDriver, 2)):
